@@ -105,4 +105,10 @@ CROSS_LANE = {
     'windows': "moving windows mix neighbours", 'axis_windows': "moving windows", 'exact_chunks': "chunks",
     'exact_chunks_mut': "chunks", 'axis_chunks_iter': "chunks", 'axis_chunks_iter_mut': "chunks",
     'remove_index': "removes an index", 'insert_axis': "changes rank", 'squeeze': "changes rank",
+    # flat / raw access hands out all lanes at once, in memory order
+    'as_slice': "flat access to all lanes", 'as_slice_mut': "flat access to all lanes", 'as_slice_memory_order': "flat access to all lanes in memory order",
+    'as_slice_memory_order_mut': "flat access to all lanes in memory order", 'as_ptr': "raw access", 'as_mut_ptr': "raw access",
+    'into_slice': "flat access", 'to_slice': "flat access", 'into_slice_memory_order': "flat access in memory order",
+    'to_slice_memory_order': "flat access in memory order", 'raw_view': "raw access", 'raw_view_mut': "raw access", 'into_raw_vec': "raw storage",
+    'into_raw_vec_and_offset': "raw storage",
 }
